@@ -505,7 +505,7 @@ fn check_wit_case(ctx: &mut Ctx, case: u64, rng: &mut Rng) {
 }
 
 pub fn run(ctx: &mut Ctx) {
-    let wit_total = ctx.n(400, 600_000);
+    let wit_total = ctx.n(2_000, 600_000);
     for case in ctx.cases(wit_total) {
         if ctx.out_of_budget() {
             break;
@@ -515,7 +515,7 @@ pub fn run(ctx: &mut Ctx) {
         let mut rng = ctx.rng(c);
         check_wit_case(ctx, c, &mut rng);
     }
-    let total = ctx.n(3_000, 8_000_000);
+    let total = ctx.n(15_000, 8_000_000);
     for case in ctx.cases(total) {
         if ctx.out_of_budget() {
             ctx.count("budget-stop");
